@@ -12911,3 +12911,103 @@ Theorem drain_history mh os s :
   reg s = [] /\ Heap.ids (heap s) = [] /\ numNodes s = 0%Z /\
   forall n, parents (nd s n) = [] /\ children (nd s n) = [].
 Proof. intros Hmh H. apply drain, (Inv_run_clean mh os s Hmh H). Qed.
+
+(** * A template instantiates to the same subgraph whatever scope it is built in *)
+Lemma bd_newNode_shape s k d sc v b : exists l, bd (newNode s k d sc v).1 b = bd s b <| b_rhsNodes := l |>.
+Proof.
+  unfold bd. rewrite binds_newNode. destruct sc as [b0|].
+  - destruct (decide (b = b0)) as [->|Hne].
+    + rewrite lookup_alter. destruct (binds s !! b0) as [r|]; simpl; eexists; [reflexivity|]. reflexivity.
+    + rewrite lookup_alter_ne by congruence. exists (b_rhsNodes (default (mkBind 0 0 0 None [] [] 0 false []) (binds s !! b))).
+      destruct (default _ _); reflexivity.
+  - exists (b_rhsNodes (default (mkBind 0 0 0 None [] [] 0 false []) (binds s !! b))). destruct (default _ _); reflexivity.
+Qed.
+
+Lemma set_rhsNodes_twice (r : bindrec) l1 l2 : r <| b_rhsNodes := l1 |> <| b_rhsNodes := l2 |> = r <| b_rhsNodes := l2 |>.
+Proof. destruct r; reflexivity. Qed.
+
+Lemma same_upto_scope_refl s : same_upto_scope s s.
+Proof.
+  split; auto; try reflexivity.
+  - intros m. destruct (nd s m); reflexivity.
+  - intros b. destruct (bd s b); reflexivity.
+  - repeat split.
+Qed.
+
+Lemma same_upto_scope_newNode s1 s2 k d sc1 sc2 v :
+  same_upto_scope s1 s2 ->
+  same_upto_scope (newNode s1 k d sc1 v).1 (newNode s2 k d sc2 v).1 /\
+  (newNode s1 k d sc1 v).2 = (newNode s2 k d sc2 v).2.
+Proof.
+  intros [Hn Hh Hnd Hbd (R1&R2&R3&R4&R5&R6&R7&R8&R9&R10&R11&R12&R13)]. split; [|exact Hn]. split.
+  - rewrite !next_newNode, Hn. reflexivity.
+  - intros m. rewrite !has_newNode, Hn, Hh. reflexivity.
+  - intros m. rewrite !nd_newNode, Hn. destruct (decide (m = next s2)); [reflexivity|apply Hnd].
+  - intros b. destruct (bd_newNode_shape s1 k d sc1 v b) as [l1 E1]. destruct (bd_newNode_shape s2 k d sc2 v b) as [l2 E2].
+    rewrite E2, E1, (Hbd b). destruct (bd s1 b); reflexivity.
+  - rewrite !reg_newNode, !obs_newNode, !heap_newNode, !adj_newNode, !invq_newNode, !stabNum_newNode, !status_newNode,
+      !numNodes_newNode, !setDuring_newNode, !setRemoved_newNode, !handlers_newNode, !maxHeight_newNode, !log_newNode.
+    repeat split; assumption.
+Qed.
+
+Local Opaque newNode.
+Theorem inst_scope_irrel x : forall e s1 s2 sc1 sc2,
+  texp_nobind e = true -> same_upto_scope s1 s2 ->
+  same_upto_scope (inst s1 sc1 x e).1 (inst s2 sc2 x e).1 /\ (inst s1 sc1 x e).2 = (inst s2 sc2 x e).2.
+Proof.
+  induction e as [k| |t|f e IH|f e1 IH1 e2 IH2|c e IH|cs e IH|]; intros s1 s2 sc1 sc2 NB S; simpl in NB |- *.
+  - destruct (same_upto_scope_newNode s1 s2 KReturn [] sc1 sc2 k S) as [A B].
+    destruct (newNode s1 KReturn [] sc1 k), (newNode s2 KReturn [] sc2 k). simpl in *. split; [exact A|congruence].
+  - destruct (same_upto_scope_newNode s1 s2 KReturn [] sc1 sc2 x S) as [A B].
+    destruct (newNode s1 KReturn [] sc1 x), (newNode s2 KReturn [] sc2 x). simpl in *. split; [exact A|congruence].
+  - auto.
+  - destruct (IH s1 s2 sc1 sc2 NB S) as [A B].
+    destruct (inst s1 sc1 x e) as [t1 a1], (inst s2 sc2 x e) as [t2 a2]. simpl in A, B. subst a2.
+    destruct (same_upto_scope_newNode t1 t2 (KMap f) [default 0%nat a1] sc1 sc2 0 A) as [A' B'].
+    destruct (newNode t1 _ _ sc1 0), (newNode t2 _ _ sc2 0). simpl in *. split; [exact A'|congruence].
+  - apply andb_true_iff in NB as [NB1 NB2].
+    destruct (IH1 s1 s2 sc1 sc2 NB1 S) as [A B].
+    destruct (inst s1 sc1 x e1) as [t1 a1], (inst s2 sc2 x e1) as [t2 a2]. simpl in A, B. subst a2.
+    destruct (IH2 t1 t2 sc1 sc2 NB2 A) as [A2 B2].
+    destruct (inst t1 sc1 x e2) as [u1 c1], (inst t2 sc2 x e2) as [u2 c2]. simpl in A2, B2. subst c2.
+    destruct (same_upto_scope_newNode u1 u2 (KMap2 f) [default 0%nat a1; default 0%nat c1] sc1 sc2 0 A2) as [A' B'].
+    destruct (newNode u1 _ _ sc1 0), (newNode u2 _ _ sc2 0). simpl in *. split; [exact A'|congruence].
+  - destruct (IH s1 s2 sc1 sc2 NB S) as [A B].
+    destruct (inst s1 sc1 x e) as [t1 a1], (inst s2 sc2 x e) as [t2 a2]. simpl in A, B. subst a2.
+    destruct (same_upto_scope_newNode t1 t2 (KCutoff c) [default 0%nat a1] sc1 sc2 0 A) as [A' B'].
+    destruct (newNode t1 _ _ sc1 0), (newNode t2 _ _ sc2 0). simpl in *. split; [exact A'|congruence].
+  - discriminate.
+  - auto.
+Qed.
+Local Transparent newNode.
+
+(* the function of a memoized bind (scope of the bind itself, here none) builds, node for node and
+   identifier for identifier, what the function of a plain bind [b] builds in the scope of [b] *)
+Corollary memo_builds_what_plain_builds s b x e :
+  texp_nobind e = true ->
+  same_upto_scope (inst s None x e).1 (inst s (Some b) x e).1 /\ (inst s None x e).2 = (inst s (Some b) x e).2.
+Proof. intros NB. apply inst_scope_irrel; [exact NB|apply same_upto_scope_refl]. Qed.
+
+(** * Observers on bind-scope nodes are outside the invariant, not outside [wfb] *)
+(* observing a LIVE node of a bind's scope and then swapping the right-hand side leaves a
+   registered, invalid, isolated node behind (the observer keeps it necessary; its invalidation
+   unlinked it).  [wfb] accepts that state; clause [vo_reg] of [Inv] (registered => valid) does
+   not: the exclusion of such observers is a limit of this invariant, no defect was found *)
+Theorem inner_observer_outside_invariant : exists s n,
+  run_unrejected (init 16) h_inner = Some s /\ wfb s = true /\
+  inGraph (nd s n) = true /\ valid (nd s n) = false /\ parents (nd s n) = [] /\ children (nd s n) = [] /\
+  ~ Inv s.
+Proof.
+  assert (H : match run_unrejected (init 16) h_inner with
+              | Some s => wfb s && inGraph (nd s 5%nat) && negb (valid (nd s 5%nat)) &&
+                          bool_decide (parents (nd s 5%nat) = []) && bool_decide (children (nd s 5%nat) = [])
+              | None => false end = true) by (vm_compute; reflexivity).
+  remember (run_unrejected (init 16) h_inner) as r eqn:E. destruct r as [s|]; [|discriminate H].
+  apply andb_true_iff in H as [H H5]. apply andb_true_iff in H as [H H4]. apply andb_true_iff in H as [H H3].
+  apply andb_true_iff in H as [H1 H2].
+  apply bool_decide_eq_true in H4, H5.
+  assert (Hv : valid (nd s 5%nat) = false) by (destruct (valid (nd s 5%nat)); [discriminate|reflexivity]).
+  exists s, 5%nat. split; [reflexivity|]. split; [exact H1|]. split; [exact H2|].
+  split; [exact Hv|]. split; [exact H4|]. split; [exact H5|].
+  intros HI. rewrite (vo_reg s (inv_valid s HI) 5%nat H2) in Hv. discriminate.
+Qed.
